@@ -385,6 +385,11 @@ def gen_stream(rng, modes=None, rich=False, lengths=None, tagged=True, italics=F
                 row = {'col': col, 'items': text_items(rng, t, rich, single), 'gap': rng.choice([0, 1, 5, 20, 60])}
                 if edits and rng.random() < 0.5:
                     row['items'] = erase_edits(rng, row['items'], single)
+                if not lengths and rng.random() < 0.15:
+                    row['order'] = 'pac-cr'
+                if not lengths and not italics and rng.random() < 0.1:
+                    row['italic'] = True          # italics preamble (column 0)
+                    row['col'] = 0
                 if italics and rng.random() < 0.5:
                     if rng.random() < 0.5:
                         row['italic'] = True
@@ -474,10 +479,19 @@ def encode_stream(st):
             ru = {2: 'RU2', 3: 'RU3', 4: 'RU4'}[seg['depth']]
             for i, r in enumerate(seg['rows']):
                 ws = []
-                if i == 0 or seg['resend_ru']:
+                rw = encode_row(rowspec(seg['base'], r), d)
+                npac = 2 if d else 1
+                if r.get('order') == 'pac-cr' and (i == 0 or seg['resend_ru']):
+                    # the same codes in another legal order: the preamble before the carriage return
                     ctl(ws, ru)
-                ctl(ws, 'CR')
-                ws.extend(encode_row(rowspec(seg['base'], r), d))
+                    ws.extend(rw[:npac])
+                    ctl(ws, 'CR')
+                    ws.extend(rw[npac:])
+                else:
+                    if i == 0 or seg['resend_ru']:
+                        ctl(ws, ru)
+                    ctl(ws, 'CR')
+                    ws.extend(rw)
                 rows_sent.append(items_display(r['items']))
                 rows_sent.modes.append(('roll', si))
                 emit(ws, r['gap'])
